@@ -58,7 +58,7 @@ PROPS.update({
     'C08': _e2e(['freshen', 'mix'], ['C08'], ['outcome', 'calls', 'store_full']),
     'C09': _e2e(['hit', 'mix'], ['C09'], ['outcome', 'ncalls', 'cache_status']),
     'C11': _e2e(['age', 'mix'], ['C11'], ['outcome', 'cache_status', 'age', 'ncalls']),
-    'C12': _e2e(['spell'], ['C01', 'C02', 'C06', 'C13', 'C18'], ['outcome', 'calls', 'cache_status', 'age', 'store']),
+    'C12': _e2e(['spell'], ['C01', 'C02', 'C06', 'C09', 'C13', 'C18'], ['outcome', 'calls', 'cache_status', 'age', 'store']),
     'C13': _e2e(['sie', 'mix'], ['C13'], ['outcome', 'calls', 'cache_status', 'age']),
     'C19': dict(engines=['e2e'], e2e=[dict(profile='repeat', n_quick=150, n_thorough=2000), dict(profile='vary', n_quick=800, n_thorough=8000)],
                 monitors=['C19'], projection=['store'], rule=E2E_RULE, assumptions=[]),
@@ -90,3 +90,6 @@ PROPS['C17'] = dict(engines=['encrypt'],
                           'every experiment is non-trivial; distinct = distinct result line'),
                     assumptions=['AES-GCM (crypto/aes, crypto/cipher) is an authenticated cipher: open(seal) = id, only seal outputs open, wrong keys fail; ciphertext reveals no plaintext (cryptographic assumptions, stated as hypotheses of the theorems)',
                                  'crypto/rand delivers nonces that do not repeat'])
+
+PROPS['C12']['e2e'][0]['twins'] = True
+PROPS['C12']['rule'] = E2E_RULE + '; every history whose Cache-Control fields were respelled is run a second time with the canonical spelling of the same directive lists and the two runs of the implementation are compared exchange by exchange (outcome, cache status, Age, origin calls, store operations)'
